@@ -396,6 +396,7 @@ func (m *Machine) Dispose() {
 		// fmt.Println("dispose locals " + m.Id())
 		m.queueProcessing.Store(false)
 		m.unlockDisposed.Store(true)
+		verifPoint(m, "dd:unlocked")
 		m.doDispose(false)
 	}()
 }
